@@ -27,6 +27,8 @@ def ev(t, env):
         return -ev(t[1], env)
     if op == 'pow':
         return ev(t[1], env) ** int(t[2])
+    if op == 'e10':
+        return 10.0 ** int(t[1])
     if op == 'vpow':
         return np.power(ev(t[1], env), ev(t[2], env))
     if op == 'fn':
@@ -68,7 +70,7 @@ def variables(t, acc=None):
     acc = set() if acc is None else acc
     if t[0] == 'v':
         acc.add(t[1])
-    elif t[0] != 'q':
+    elif t[0] not in ('q', 'e10'):
         for a in t[1:]:
             if isinstance(a, list):
                 variables(a, acc)
